@@ -78,6 +78,8 @@ var filler = []string{"u := a + 1", "u := a * 2 - 1", "w := []int{a, a + 1}", "w
 	// function literals: what follows them in the same body still belongs to the enclosing function
 	// a native that calls back into the script (the comparison function) while this chain is active
 	"w := sorted(a)", "w := sorted(a + 1)",
+	// recursions that have returned before the fault: none of their calls is active any more
+	"u := down(3)", "u := down(a + 1) + down(2)", "u := ping(a + 2)",
 	"u := func(x int) int { return x + 1 }", "u := func(x int) int { return x + 1 }(a)", "w := []func() int{func() int { return 1 }}", "o := &T{V: func() int { return 2 }()}"}
 
 func genCase(rt *rapid.T) *Case {
@@ -97,6 +99,25 @@ func genCase(rt *rapid.T) *Case {
 	b.add("")
 	b.add("func less(x int, y int) bool {")
 	b.add("\treturn lt1(x, y)")
+	b.add("}")
+	b.add("")
+	b.add("func down(n int) int {")
+	b.add("\tif n <= 0 {")
+	b.add("\t\treturn 0")
+	b.add("\t}")
+	b.add("\treturn down(n-1) + 1")
+	b.add("}")
+	b.add("")
+	b.add("func ping(n int) int {")
+	b.add("\tif n <= 0 {")
+	b.add("\t\treturn 0")
+	b.add("\t}")
+	b.add("\tr := pong(n - 1)")
+	b.add("\treturn r + 1")
+	b.add("}")
+	b.add("")
+	b.add("func pong(n int) int {")
+	b.add("\treturn ping(n-1) + 2")
 	b.add("}")
 	b.add("")
 	b.add("func sorted(a int) []int {")
@@ -217,7 +238,16 @@ func genCase(rt *rapid.T) *Case {
 			indent, closers = "\t\t", 1
 		}
 		var callLine, callLine2 int
-		switch rx.Uniform(rt, 9, "callshape") {
+		shape := rx.Uniform(rt, 10, "callshape")
+		if shape == 9 && !prev.method {
+			shape = 0
+		}
+		switch shape {
+		case 9:
+			// the receiver stands on the line before the method name and the parenthesis: the call is where the parenthesis is
+			b.add("%sr := obj.", indent)
+			callLine = b.add("%s\t%s(a)", indent, prev.name)
+			b.add("%s_ = r", indent)
 		case 7:
 			// the surplus arguments come from a slice that is spread
 			b.add("%ssp := []int{a, 1}", indent)
